@@ -9,6 +9,7 @@ import (
 	"fmt"
 	"os"
 	"strconv"
+	"strings"
 	"testing"
 )
 
@@ -60,7 +61,7 @@ func rawBytes(name string, n int) []byte {
 	if !ok {
 		return out
 	}
-	b, _ := hex.DecodeString(v)
+	b, _ := hex.DecodeString(strings.TrimPrefix(v, "x:"))
 	copy(out, b)
 	return out
 }
